@@ -216,12 +216,13 @@ def check_lift(c, fname, spec, comps, offset=0):
     except Exception as e:      # noqa  the leaf function itself rejects this companion (e.g. replace with new containing old): not a lifting case
         return None
     d5 = fname.startswith('user') and depth(spec) >= 2 and len(pos) > 0
+    order = ':dict-companion-in-another-insertion-order' if in_other_order(spec, comps) else ''
     try:
         got = lifted(x, *pos, **kw)
     except Exception as e:      # noqa
-        c.check(False, K_D5 if d5 else 'C19:lift:raises', '%s raised %r, expected %r' % (txt, e, exp), call)
+        c.check(False, 'C19:lift:raises' + order if order else K_D5 if d5 else 'C19:lift:raises', '%s raised %r, expected %r' % (txt, e, exp), call)
         return False
-    key = K_INNER if flag else K_D5V if d5 else 'C19:lift:value'
+    key = K_INNER if flag else 'C19:lift:value' + order if order else K_D5V if d5 else 'C19:lift:value'
     return c.check(strict_same(got, exp), key, '%s = %r, leaf-wise expected %r' % (txt, got, exp), call)
 
 
@@ -264,6 +265,87 @@ def lift_cases(rng, quick):
                 else:
                     yield fname, spec, [['sep', 'pos', comp]], n
                     yield fname, spec, [['sep', 'kw', comp]], n
+
+
+# ----------------------------------------------------------------------------------------------- dicts: insertion order
+def order_cases(quick):
+    """dict first arguments with dict companions over the SAME key set in every insertion order (2 and 3 keys), the companion values
+    tied to the key (not to the position) so that a positional match is told apart from a match by key; children of the first argument:
+    leaves, lists of two leaves, nested dicts (inner orders permuted as well); first argument / companion a plain dict or a pyg Dict;
+    the same one level down (a list of two dicts, a dict of two dicts); companions positional and by keyword, through user functions and
+    through replace / split.  Yields (function, first-argument spec, companions)."""
+    def dspec(kind, keys, perm, child):
+        return [kind, [[keys[i], child(keys[i])] for i in perm]]
+    kids = dict(leaf=lambda k: 0, pair=lambda k: ['L', 0, 0], inner=lambda k: ['D', [['p', 0], ['q', 0]]], inner_rev=lambda k: ['D', [['q', 0], ['p', 0]]])
+    for keys in (['x', 'y'], ['x', 'y', 'z'], ['y', 'x', 'w']):
+        perms = list(itertools.permutations(range(len(keys))))
+        srt = sorted(keys)
+        for pa in perms:
+            for pb in perms:
+                for kid in kids:
+                    if quick and len(keys) == 3 and kid in ('inner', 'inner_rev') and (perms.index(pa) + perms.index(pb)) % 2:
+                        continue
+                    for ka, kb in (('D', 'D'), ('DD', 'D'), ('D', 'DD')) if kid == 'leaf' else (('D', 'D'),):
+                        spec = dspec(ka, keys, pa, kids[kid])
+                        for fname in ('user1', 'user2', 'replace', 'split'):
+                            leaves = COMPANION_LEAVES[fname if fname != 'user2' else 'user1']
+                            val = lambda k, off=0: leaves[(srt.index(k) + off) % len(leaves)]         # noqa
+                            comp = dspec(kb, keys, pb, val)
+                            if kid.startswith('inner'):       # the companion's inner dicts in the other inner order
+                                deep = dspec(kb, keys, pb, lambda k: ['D', [['q', val(k, 1)], ['p', val(k)]]])
+                            else:
+                                deep = None
+                            if fname == 'user1':
+                                yield fname, spec, [['y0', 'pos', comp]]
+                                yield fname, spec, [['y0', 'kw', comp]]
+                                if deep:
+                                    yield fname, spec, [['y0', 'pos', deep]]
+                                    yield fname, spec, [['y0', 'kw', deep]]
+                            elif fname == 'user2':
+                                other = dspec('D', keys, pa[::-1], lambda k: val(k, 1))
+                                yield fname, spec, [['y0', 'pos', comp], ['y1', 'kw', other]]
+                                yield fname, spec, [['y0', 'kw', other], ['y1', 'kw', comp]]
+                                yield fname, spec, [['y0', 'pos', other], ['y1', 'pos', comp]]
+                            elif fname == 'replace':
+                                yield fname, spec, [['old', 'pos', comp]]
+                                yield fname, spec, [['old', 'kw', comp]]
+                                new = dspec('D', keys, pb[::-1], lambda k: ['_', '-', ''][srt.index(k) % 3])
+                                yield fname, spec, [['old', 'pos', comp], ['new', 'pos', new]]
+                                yield fname, spec, [['old', 'pos', ' '], ['new', 'kw', new]]
+                            elif kid != 'pair' or not quick:
+                                yield fname, spec, [['sep', 'pos', comp]]
+                                yield fname, spec, [['sep', 'kw', comp]]
+    # one level down: the dicts sit inside a list / a dict; both levels are matched, the inner dicts in all four order combinations
+    keys = ['x', 'y']
+    for outer in ('L', 'T', 'D'):
+        for p1, p2, q1, q2 in itertools.product([(0, 1), (1, 0)], repeat=4):
+            a1, a2 = dspec('D', keys, p1, lambda k: 0), dspec('D', keys, p2, lambda k: 0)
+            for fname in ('user1', 'replace'):
+                leaves = COMPANION_LEAVES[fname]
+                b1, b2 = dspec('D', keys, q1, lambda k: leaves[keys.index(k)]), dspec('D', keys, q2, lambda k: leaves[keys.index(k) + 1])
+                if outer == 'D':
+                    spec, comp = ['D', [['m', a1], ['n', a2]]], ['D', [['n', b2], ['m', b1]]]
+                else:
+                    spec, comp = [outer, a1, a2], [outer, b1, b2]
+                name = COMPANION_NAMES[fname][0]
+                yield fname, spec, [[name, 'pos', comp]]
+                yield fname, spec, [[name, 'kw', comp]]
+
+
+def in_other_order(spec, comps):
+    """is some dict companion (at any depth) keyed like the dict it meets in the first argument but inserted in another order?"""
+    def walk(a, b):
+        if not (is_spec(a) and is_spec(b)):
+            return False
+        if a[0] in ('D', 'DD') and b[0] in ('D', 'DD'):
+            ka, kb = [k for k, _ in a[1]], [k for k, _ in b[1]]
+            if sorted(ka) != sorted(kb):
+                return False
+            return ka != kb or any(walk(dict(map(tuple, a[1]))[k], dict(map(tuple, b[1]))[k]) for k in ka)
+        if a[0] in ('L', 'T') and b[0] in ('L', 'T') and len(a) == len(b):
+            return any(walk(x, y) for x, y in zip(a[1:], b[1:]))
+        return False
+    return any(walk(spec, cs) for _, _, cs in comps)
 
 
 # ----------------------------------------------------------------------------------------------- zipper / lens / as_list
@@ -438,7 +520,9 @@ def run(tier, seed):
     c = Collector('C19', rule='lifting: every structure with <= %d nodes (containers + leaves), nesting <= 4, containers list/tuple/dict, %splus %d seeded structures of depth <= 4 incl. pyg Dict and empty '
                   'containers; functions: loop(list,tuple,dict) of f(x), f(x,y), f(x,y,z) and lower, upper, strip, proper, replace, split, f12, as_float; companions of 7 kinds (scalar, same shape, '
                   'longer flat list, matching only at the top, other container kind / other keys, same shape with one inner container longer, unmatched container holding matching containers) '
-                  'passed positionally and by keyword; zipper/lens: every tuple of <= %d values from 13 (scalars, strings, sequences of length 0-3, ranges); as_list/as_tuple: 27 values x none flag; '
+                  'passed positionally and by keyword; dict first arguments (2-3 keys, children leaves / lists / nested dicts, plain dict or pyg Dict) with dict companions over the '
+                  'same key set in EVERY pair of insertion orders, companion values tied to the key, positional and by keyword, through f(x,y), f(x,y,z), replace, split, also one level '
+                  'down inside list / tuple / dict; zipper/lens: every tuple of <= %d values from 13 (scalars, strings, sequences of length 0-3, ranges); as_list/as_tuple: 27 values x none flag; '
                   'waiter: %ssmall structure (<= %d nodes) with all / alternate leaves awaitable, flat containers of k awaitables and seeded deeper ones, <= %d awaitables (bare futures and coroutines), resolved by a '
                   'scripted scheduler in EVERY completion order, also with a prefix completed before the call. Non-trivial: a structure with at least one leaf (lifting), at least two values '
                   '(zipper), at least two awaitables (waiter); distinct by input' % (4 if quick else 5, '250 seeded ones with 5 nodes, ' if quick else '', 60 if quick else 1500, 3 if quick else 4, 'a seeded subset of the ' if quick else 'every ', 5, kmax),
@@ -455,6 +539,10 @@ def run(tier, seed):
         r = check_lift(c, fname, spec, comps, n)
         if r is not None:
             c.case(('lift', fname, repr(spec), repr(comps)), nontrivial=spec != ['L'] and len(repr(spec)) > 6, sample=dict(f=fname, x=spec, companions=comps) if c.evaluations % 9973 == 0 else None)
+    for n, (fname, spec, comps) in enumerate(order_cases(quick)):
+        r = check_lift(c, fname, spec, comps, n % 5)
+        if r is not None:
+            c.case(('lift', fname, repr(spec), repr(comps)), nontrivial=True, sample=dict(f=fname, x=spec, companions=comps) if n == 7 else None)
     for k in range(0, (3 if quick else 4) + 1):
         for idx in itertools.product(range(len(ZIP_POOL)), repeat=k):
             check_zipper(c, idx)
